@@ -308,7 +308,21 @@ def parse_kernel_output(out):
     body = m.group(1)
     if body.strip() == "[]":
         return [], int(m.group(2)), flat
-    idx = [int(x) for x in re.findall(r"\((\d+)%N,", body)]
+    # entries of the outer list only: "(<idx>%N, <model result>)" at nesting depth 1
+    idx = []
+    depth = 0
+    i = 0
+    while i < len(body):
+        ch = body[i]
+        if ch in "([":
+            if ch == "(" and depth == 1:
+                mm = re.match(r"\(\s*(\d+)%N\s*,", body[i:])
+                if mm:
+                    idx.append(int(mm.group(1)))
+            depth += 1
+        elif ch in ")]":
+            depth -= 1
+        i += 1
     return idx, int(m.group(2)), flat
 
 
